@@ -4,7 +4,8 @@
 From Coq Require Import NArith List.
 From Carquet Require Import Base.Res Enc.BitpackSpec Enc.BitpackModel Enc.BitpackProofs Enc.BitpackNProofs
   Enc.BitpackLoopModel Enc.BitpackLoopProofs
-  Enc.RleSpec Enc.RleModel Enc.RleDecProofs Enc.RleProofs File.ForeignModel Enc.RleLevelsRoundtrip.
+  Enc.RleSpec Enc.RleModel Enc.RleDecProofs Enc.RleProofs File.ForeignModel Enc.RleLevelsRoundtrip
+  Enc.BitRwSpec Enc.BitRwModel Enc.BitRwProofs.
 Import ListNotations.
 Local Open Scope N_scope.
 
@@ -24,6 +25,33 @@ Print Assumptions bitpack8_roundtrip_exact.
 Theorem bitpack8_size : forall w vs, length (pack8 w vs) = w.
 Proof. exact pack8_length. Qed.
 Print Assumptions bitpack8_size.
+
+(** Raw bit packing through the bit writer / bit reader pair of core/bitpack.c (fields of ANY widths, mixed):
+    for every sequence of write_bit / write_bits / write_bits64 calls (any values; widths above the type's are
+    clamped as the code clamps them, zero widths write nothing) into a buffer that holds the bits, the bytes written
+    are the LSB-first layout of BitRwSpec - exactly ceil(bits/8) of them - and reading the same sequence back returns
+    every value masked to its width, consuming exactly the bits written. *)
+Theorem bit_rw_roundtrip : forall cap gs, stream_bits (all_fields gs) <= 8 * cap ->
+  let out := w_out (write_all cap gs) in
+  out = stream_bytes (all_fields gs) /\
+  exists s', read_all (br_init out) gs = Some (map seg_value gs, s') /\
+             remaining_bits s' = 8 * N.of_nat (length out) - stream_bits (all_fields gs).
+Proof. exact bit_rw_roundtrip_lemma. Qed.
+Print Assumptions bit_rw_roundtrip.
+
+(** The two loops of that code (drain / refill the 64-bit accumulator) never exhaust the fuel of the model. *)
+Theorem bit_rw_loops_terminate : forall s r, WInv s -> w_bits s <= 79 -> RInv r ->
+  flush_step (flush_buffer s) = flush_buffer s /\ refill_step (refill_buffer r) = refill_buffer r.
+Proof. intros s r H1 H2 H3. split; [exact (flush_done s H1 H2)|exact (refill_done r H3)]. Qed.
+Print Assumptions bit_rw_loops_terminate.
+
+(** The writer before /repo 22baf41 (no drain in front of the OR into the accumulator) does NOT have the property:
+    eight 11-bit values are enough (found by the coverage audit, no case had reached the bit writer). *)
+Theorem bit_writer_before_22baf41_refuted :
+  exists vs, let fs := map (fun v => (v, 11)) vs in
+    w_out (bw_flush (fold_left (fun s v => write_bits_old s v 11) vs (bw_init 11))) <> stream_bytes fs.
+Proof. exact bit_writer_old_refuted. Qed.
+Print Assumptions bit_writer_before_22baf41_refuted.
 
 (** The C loops themselves (src/core/bitpack.c mirrored statement by statement in Enc/BitpackLoopModel.v: the
     eight specialised unpackers, the dispatch switch, the general 9..32-bit gather loop, the memset + scatter
